@@ -105,7 +105,7 @@ def check(prop, tier, verif_seed, only_engine=None, runs_override=None, out=prin
                 per["violations"] += 1
                 if inv not in seen_inv and len(seen_inv) < 3:
                     seen_inv.add(inv)
-                    violations.append((engine, o["run_index"], inv, det, o["choices"]))
+                    violations.append((engine, o["run_index"], inv, det, o["choices"], o.get("prefix", [])))
                     # stop exploring soon: a violation has been found
                     deadline[0] = min(deadline[0], time.monotonic() + 1.0)
 
@@ -127,19 +127,39 @@ def check(prop, tier, verif_seed, only_engine=None, runs_override=None, out=prin
     # ---- violations: shrink, write replay, verify in a fresh interpreter ----
     exit_code = 0
     reported = []
-    for engine, run_index, inv, det, choices in violations:
+    for engine, run_index, inv, det, choices, prefix in violations:
         out(f"[{prop}] violation of {inv} in engine {engine.NAME} run {run_index}: {json.dumps(det)[:600]}")
+        use_prefix = None
         small = driver.shrink(engine, choices, inv, tier, run_index, SHRINK_BUDGET[tier], log=out)
         res = driver.run_recorded(engine, small, tier, run_index, engine.RUN_WALL_CAP * 2)
         if not driver._has(res, prop, inv):
             # fall back to the unshrunk choices
             small = choices
             res = driver.run_recorded(engine, small, tier, run_index, engine.RUN_WALL_CAP * 2)
+        if not driver._has(res, prop, inv) and prefix:
+            # last resort: the failure depends on state that survived earlier runs of the same worker process
+            # (something the per-run isolation does not reach): replay those runs first, then drop as many as possible
+            use_prefix = list(prefix)
+            res = driver.run_recorded(engine, small, tier, run_index, engine.RUN_WALL_CAP * 2, prefix=use_prefix, verif_seed=verif_seed)
+            if driver._has(res, prop, inv):
+                t_end = time.monotonic() + SHRINK_BUDGET[tier]
+                step = max(1, len(use_prefix) // 2)
+                while step >= 1 and time.monotonic() < t_end:
+                    i = 0
+                    while i < len(use_prefix) and time.monotonic() < t_end:
+                        cand = use_prefix[:i] + use_prefix[i + step:]
+                        r2 = driver.run_recorded(engine, small, tier, run_index, engine.RUN_WALL_CAP * 2, prefix=cand, verif_seed=verif_seed)
+                        if driver._has(r2, prop, inv):
+                            use_prefix, res = cand, r2
+                        else:
+                            i += step
+                    step //= 2
+                out(f"[{prop}] {inv} reproduces only after {len(use_prefix)} earlier run(s) in the same process: {use_prefix[:12]}")
         if not driver._has(res, prop, inv):
             out(f"HARNESS-ERROR property={prop} violation of {inv} did not reproduce from its own choice list (run {run_index})")
             harness_fail = True
             continue
-        path = driver.write_replay(engine, inv, verif_seed, tier, run_index, res["taken"], res, repo)
+        path = driver.write_replay(engine, inv, verif_seed, tier, run_index, res["taken"], res, repo, prefix=use_prefix)
         env = dict(os.environ)
         p = subprocess.run([sys.executable, os.path.join(VERIF, "simdst", "cli.py"), "replay", path, "--quiet"], env=env, capture_output=True, text=True, timeout=engine.RUN_WALL_CAP * 4 + 120)
         if p.returncode != 1:
